@@ -21,6 +21,11 @@ And3(a, b) == IF a = 2 \/ b = 2 THEN 2 ELSE IF a = 1 /\ b = 1 THEN 1 ELSE 0
 Or3(a, b)  == IF a = 1 \/ b = 1 THEN 1 ELSE IF a = 2 /\ b = 2 THEN 2 ELSE 0
 Neg(r)     == IF r = 1 THEN 2 ELSE IF r = 2 THEN 1 ELSE r
 Ordered(k) == k \in {"num", "str", "date"}
+\* The other kinds that < is defined for - times, date-times and the two kinds of durations - are ordered kinds as well,
+\* but two of their values need not be comparable (a local time against one with an offset, a time of day in a named
+\* zone): for them the laws are demanded in conditional form, of the pairs and triples whose comparisons all have an answer
+OrderedIfComparable(k) == k \in {"time", "dt", "dtd", "ymd"}
+Def(r) == r \in {1, 2}
 Tri(r)     == r \in {0, 1, 2}
 Ones(a, b, c) == (IF a = 1 THEN 1 ELSE 0) + (IF b = 1 THEN 1 ELSE 0) + (IF c = 1 THEN 1 ELSE 0)
 
@@ -41,6 +46,10 @@ PairLaws ==
             \/ Fail("trichotomy", i, j, 0)
          /\ Obs.le[i][j] = Or3(Obs.lt[i][j], Obs.eq[i][j]) \/ Fail("le-is-lt-or-eq", i, j, 0)
          /\ Obs.ge[i][j] = Or3(Obs.gt[i][j], Obs.eq[i][j]) \/ Fail("ge-is-gt-or-eq", i, j, 0)
+    /\ (K(i) = K(j) /\ OrderedIfComparable(K(i)) /\ Def(Obs.lt[i][j]) /\ Def(Obs.eq[i][j]) /\ Def(Obs.gt[i][j])) =>
+         /\ Ones(Obs.lt[i][j], Obs.eq[i][j], Obs.gt[i][j]) = 1 \/ Fail("trichotomy (times, date-times, durations)", i, j, 0)
+         /\ (Def(Obs.le[i][j]) => Obs.le[i][j] = Or3(Obs.lt[i][j], Obs.eq[i][j])) \/ Fail("le-is-lt-or-eq (times, date-times, durations)", i, j, 0)
+         /\ (Def(Obs.ge[i][j]) => Obs.ge[i][j] = Or3(Obs.gt[i][j], Obs.eq[i][j])) \/ Fail("ge-is-gt-or-eq (times, date-times, durations)", i, j, 0)
 
 TripleLaws ==
   \A x, i, j \in Idx :
@@ -52,7 +61,18 @@ TripleLaws ==
       /\ Obs.in_oc[x][i][j] = Obs.cmp_oc[x][i][j] \/ Fail("in-open-closed-vs-comparisons", i, j, x)
       /\ Obs.cmp_cc[x][i][j] = And3(Obs.le[i][x], Obs.le[x][j]) \/ Fail("conjunction-vs-pair-table", i, j, x)
 
+\* the same agreement for times, date-times and durations, of the triples whose two comparisons have an answer
+TripleLawsIfComparable ==
+  \A x, i, j \in Idx :
+    (K(x) = K(i) /\ K(i) = K(j) /\ OrderedIfComparable(K(x)) /\ Def(Obs.le[i][x]) /\ Def(Obs.le[x][j]) /\ Def(Obs.lt[i][x]) /\ Def(Obs.lt[x][j])) =>
+      /\ Obs.btw[x][i][j]   = Obs.cmp_cc[x][i][j] \/ Fail("between-vs-comparisons (times, date-times, durations)", i, j, x)
+      /\ Obs.in_cc[x][i][j] = Obs.cmp_cc[x][i][j] \/ Fail("in-closed-closed-vs-comparisons (times, date-times, durations)", i, j, x)
+      /\ Obs.in_oo[x][i][j] = Obs.cmp_oo[x][i][j] \/ Fail("in-open-open-vs-comparisons (times, date-times, durations)", i, j, x)
+      /\ Obs.in_co[x][i][j] = Obs.cmp_co[x][i][j] \/ Fail("in-closed-open-vs-comparisons (times, date-times, durations)", i, j, x)
+      /\ Obs.in_oc[x][i][j] = Obs.cmp_oc[x][i][j] \/ Fail("in-open-closed-vs-comparisons (times, date-times, durations)", i, j, x)
+      /\ Obs.cmp_cc[x][i][j] = And3(Obs.le[i][x], Obs.le[x][j]) \/ Fail("conjunction-vs-pair-table (times, date-times, durations)", i, j, x)
+
 VARIABLE st
 Init == st = 0
-Next == st = 0 /\ st' = 1 /\ PairLaws /\ TripleLaws /\ PrintT(<<"LAWS-EVALUATED", Obs.n>>)
+Next == st = 0 /\ st' = 1 /\ PairLaws /\ TripleLaws /\ TripleLawsIfComparable /\ PrintT(<<"LAWS-EVALUATED", Obs.n>>)
 =============================================================================
